@@ -242,6 +242,55 @@ def check_plumbing(ctx, rep):
                              "passed to the density" if pname == 'r' else f"the rates are computed from another quantity than the model's {attr}"))
     if n_conv < 1:
         raise AnalysisError('BDSKModel never calls epidemiology_to_birth_death')
+    # every density the model can evaluate is configured by the WHOLE model: an alternative construction (a fast path for a special case) either receives each option the main
+    # construction receives, or sits under a guard that tests it
+    local_src = {}
+    for st in ast.walk(fn):
+        if isinstance(st, ast.Assign):
+            attrs = {self_attr(a) for a in ast.walk(st.value) if self_attr(a)}
+            for t in st.targets:
+                for x in ast.walk(t):
+                    if isinstance(x, ast.Name):
+                        local_src.setdefault(x.id, set()).update(attrs)
+    for _ in range(3):
+        for st in ast.walk(fn):
+            if isinstance(st, ast.Assign):
+                more = set()
+                for x in ast.walk(st.value):
+                    if isinstance(x, ast.Name) and x.id in local_src:
+                        more |= local_src[x.id]
+                for t in st.targets:
+                    for x in ast.walk(t):
+                        if isinstance(x, ast.Name):
+                            local_src.setdefault(x.id, set()).update(more)
+    sites = []
+    for c in ast.walk(fn):
+        if isinstance(c, ast.Call) and isinstance(c.func, ast.Name) and c.func.id[:1].isupper() and (len(c.args) + len(c.keywords)) >= 3:
+            got = set()
+            for a in list(c.args) + [k.value for k in c.keywords]:
+                for x in ast.walk(a):
+                    if self_attr(x):
+                        got.add(self_attr(x))
+                    if isinstance(x, ast.Name) and x.id in local_src:
+                        got |= local_src[x.id]
+            p_ = getattr(c, '_parent', None)
+            while p_ is not None and p_ is not fn:
+                if isinstance(p_, ast.If):
+                    for x in ast.walk(p_.test):
+                        if self_attr(x):
+                            got.add(self_attr(x))
+                        if isinstance(x, ast.Name) and x.id in local_src:
+                            got |= local_src[x.id]
+                p_ = getattr(p_, '_parent', None)
+            sites.append((c, got - {'tree_model'}))
+    if not sites:
+        raise AnalysisError('BDSKModel._call constructs no density')
+    union = set().union(*[g for _, g in sites])
+    for c, got in sites:
+        missing = sorted(union - got)
+        rep.check('C09.K', f"BDSKModel._call::{c.func.id}-is-configured-by-every-option-of-the-model", not missing, where(cls.module, c), {'receives_or_tests': sorted(got), 'options_of_the_model': sorted(union)},
+                  f"BDSKModel._call builds a {c.func.id} that neither receives nor is guarded by a test of {missing}: for a model configured with those options this path evaluates a "
+                  f"density that ignores them")
     p = [a.arg for a in conv.args.args]
 
     def atom(e):
@@ -830,6 +879,15 @@ def check_exact_comparisons(ctx, rep):
                         for n in ast.walk(x):
                             if isinstance(n, ast.Name) and n.id in defs and n.id not in ('torch',):
                                 compared.add(n.id)
+    # a tolerant comparison (isclose / allclose / |a − b| < eps) between event times and the epoch boundaries calls a psi-sampled tip that lies NEAR a rho event rho-sampled
+    tolerant = [c for c in ast.walk(fn) if isinstance(c, ast.Call) and (dotted_name(c.func) or '').split('.')[-1] in ('isclose', 'allclose')
+                and any('times' in ast.unparse(a) for a in c.args[:2])]
+    for c in tolerant:
+        rep.bad('C09.E', f"PiecewiseConstantBirthDeath.log_prob::tip-on-an-event-is-an-exact-test::{norm_text(c)[:50]}", where(mod, c), {'comparison': norm_text(c)[:100]},
+                f"`{norm_text(c)[:70]}` decides with a tolerance whether a tip sits on a sampling event: a tip sampled shortly before or after the event (a height within "
+                f"1e-8 + 1e-5·t of it) is counted as rho-sampled — it gets log rho instead of log psi and is removed from the lineages crossing the boundary")
+    if not compared and tolerant:
+        return
     if not compared:
         rep.undecided('C09.E', 'PiecewiseConstantBirthDeath.log_prob::exact-comparisons', where(mod, fn), 'no `times == <event time>` comparison found')
         return
@@ -869,6 +927,11 @@ def run(ctx, rep):
         "and the inlined first term, compared as rational functions over opaque exp/sqrt atoms; plus a sibling inventory of the "
         "direct log terms of the two log_prob implementations."
     )
+    rep.rule('C09.S', "no from_json of the birth-death modules changes class-level state (defaults shared by later specifications)")
+    from sa import purity
+    ns_ = purity.check_class_state(ctx, rep, 'C09.S', only=lambda m: m.name in BD_MODULES)
+    if ns_ < 2:
+        rep.incomplete('C09.S', '*', '', f"only {ns_} classmethods found in the birth-death modules")
     rep.rule('C09.O', "a constructor option filled in a from_json is read from the JSON key of the same name; options passed are declared by the constructor")
     rep.rule('C09.K', "BDSKModel._call passes each keyword from the attribute of the same name; epidemiological conversion satisfies λ=Rδ, μ+ψ=δ, ψ=sδ (r: μ+rψ=δ)")
     rep.rule('C09.U', "every self.<member> read by the birth-death model classes resolves")
